@@ -9,10 +9,10 @@ import (
 // SshdMsg is one message printed by the sshd world model (format strings taken from the
 // OpenSSH auth.c excerpts quoted in processors/sshd/openssh_regex.go).
 type SshdMsg struct {
-	Form     string `json:"form"`
-	PID      string `json:"pid"`
-	Msg      string `json:"msg"`
-	Accepted bool   `json:"accepted"`
+	Form     string     `json:"form"`
+	PID      string     `json:"pid"`
+	Msg      string     `json:"msg"`
+	Accepted bool       `json:"accepted"`
 	Login    *LoginSpec `json:"login,omitempty"`
 }
 
